@@ -500,6 +500,67 @@ fn check_knn_bad(case: &KnnBadCase, ctx: &mut Ctx) -> Result<(), Fail> {
     }
 }
 
+// ------------------------------------------------------------------ the selection structure in isolation (hook H1)
+
+#[derive(Clone, Debug, Serialize, Deserialize)]
+pub struct HeapCase {
+    pub k: usize,
+    pub values: Vec<i32>,
+    /// true: the usage pattern of the linear scan (k sentinels, then overwrite the root + heapify)
+    pub replace_root: bool,
+}
+
+fn strat_heap(_t: Tier) -> BoxedStrategy<HeapCase> {
+    (1usize..=12, prop_oneof![vec(-5i32..=5, 0..40), vec(-1000i32..=1000, 0..40)], any::<bool>()).prop_map(|(k, values, replace_root)| HeapCase { k, values, replace_root }).boxed()
+}
+
+fn check_heap(case: &HeapCase, ctx: &mut Ctx) -> Result<(), Fail> {
+    use smartcore::verif_hooks::HeapSelection;
+    let k = case.k;
+    ctx.nontrivial(case.values.len() > k && k >= 2);
+    ctx.label(if case.replace_root { "peek_mut+heapify" } else { "add" });
+    let vals: Vec<f64> = case.values.iter().map(|v| *v as f64 * 0.5).collect();
+    let mut sorted = vals.clone();
+    sorted.sort_by(|a, b| a.partial_cmp(b).unwrap());
+    let r = no_panic("heap_selection", || {
+        let mut h = HeapSelection::<f64>::with_capacity(k);
+        let mut peeks = vec![];
+        if case.replace_root {
+            for _ in 0..k {
+                h.add(f64::INFINITY);
+            }
+            for v in &vals {
+                let top = h.peek_mut();
+                if *v < *top {
+                    *top = *v;
+                    h.heapify();
+                }
+                peeks.push(*h.peek());
+            }
+        } else {
+            for v in &vals {
+                h.add(*v);
+                peeks.push(*h.peek());
+            }
+        }
+        (peeks, h.get())
+    })?;
+    let (peeks, mut kept) = r;
+    kept.sort_by(|a, b| a.partial_cmp(b).unwrap());
+    let n = vals.len();
+    // after i+1 insertions the structure holds the min(i+1,k) smallest so far and peek() is the largest of them
+    let mut so_far: Vec<f64> = vec![];
+    for i in 0..n {
+        so_far.push(vals[i]);
+        so_far.sort_by(|a, b| a.partial_cmp(b).unwrap());
+        let want = if i + 1 >= k { so_far[k - 1] } else if case.replace_root { f64::INFINITY } else { so_far[i] };
+        ensure!(peeks[i] == want, "heap_selection/peek", "k={} after inserting {:?}: peek() = {}, the largest of the {} smallest is {}", k, &vals[..=i], peeks[i], k.min(i + 1), want);
+    }
+    let want_kept: Vec<f64> = if case.replace_root { let mut w: Vec<f64> = sorted.iter().cloned().take(k).collect(); while w.len() < k { w.push(f64::INFINITY); } w } else { sorted.iter().cloned().take(k).collect() };
+    ensure!(kept == want_kept, "heap_selection/contents", "k={} values {:?}: kept {:?}, the k smallest are {:?}", k, vals, kept, want_kept);
+    Ok(())
+}
+
 pub fn property() -> Property {
     Property {
         id: "C04",
@@ -513,6 +574,7 @@ pub fn property() -> Property {
             sub_enum("search", (1500, 40000), strat_search, check_search, enum_lattice),
             sub("knn_estimators", (3000, 80000), strat_knn, check_knn),
             sub("knn_invalid", (200, 2000), strat_knn_bad, check_knn_bad),
+            sub("heap_selection", (1500, 40000), strat_heap, check_heap),
         ],
     }
 }
